@@ -49,7 +49,9 @@ def random_1q(lw, rng):
 def make_base(ctx, lw, rng, n):
     q = lw.qubit
     log: list = []
-    direct = str(rng.choice(["none", "none", "direct_before", "direct_between", "direct_after"]))
+    direct = str(rng.choice(["none", "none", "direct_before", "direct_between", "direct_after", "direct_crossed"]))
+    if direct == "direct_crossed" and n <= 2:
+        return make_base_crossed(ctx, lw, rng, n)
     if direct == "none" or n == 3:
         base = lw.Circuit(2 * n)
         offs = list(range(0, 2 * n, 2))
@@ -90,6 +92,45 @@ def make_base(ctx, lw, rng, n):
         if pos != 2 * n:
             ctx.bucket("direct_herald_not_last")
     return base, log, ent, direct, offs
+
+
+def make_base_crossed(ctx, lw, rng, n):
+    """A base circuit with 2-3 heralds declared directly on it, on numbered modes before and after the qubit rails, whose
+    photons are routed (by a mode permutation) from their input modes to *other* herald modes - also onto each other's
+    modes - and which carry different photon numbers, declared in random order."""
+    q = lw.qubit
+    h = int(rng.integers(2, 4))
+    hb = int(rng.integers(0, h + 1))
+    base = lw.Circuit(2 * n + h)
+    log = [["circuit", 2 * n + h, "herald modes before", hb]]
+    offs = [hb + 2 * i for i in range(n)]
+    hmodes = list(range(hb)) + list(range(hb + 2 * n, 2 * n + h))
+    ent = False
+    for _ in range(int(rng.integers(1, 5))):
+        if n == 2 and rng.random() < 0.5:
+            g = str(rng.choice(["CZ", "CNOT", "CNOT0"]))
+            base.add({"CZ": q.CZ, "CNOT": q.CNOT, "CNOT0": lambda: q.CNOT(0)}[g](), offs[0], bool(rng.random() < 0.5))
+            log.append([g, 0])
+            ent = True
+        else:
+            qi = int(rng.integers(n))
+            gate, desc = random_1q(lw, rng)
+            base.add(gate, offs[qi])
+            log.append(desc + [qi])
+    perm = [int(x) for x in rng.permutation(hmodes)]
+    if perm == hmodes:
+        perm = perm[1:] + perm[:1]
+    base.mode_swaps({a: b for a, b in zip(hmodes, perm)})
+    log.append(["swaps", dict(zip(hmodes, perm))])
+    photons = [int(x) for x in rng.permutation([1, 0, 2 if rng.random() < 0.3 else 0][:h])]
+    order = [int(x) for x in rng.permutation(len(hmodes))]
+    for k in order:
+        base.herald(photons[k], hmodes[k], perm[k])
+        log.append(["herald", photons[k], hmodes[k], perm[k]])
+    ctx.bucket("direct_heralds_routed_onto_each_other")
+    if hb > 0:
+        ctx.bucket("direct_herald_not_last")
+    return base, log, ent, "direct_crossed", offs
 
 
 def run(ctx):
